@@ -1386,6 +1386,10 @@ func call(n *node) {
 					} else {
 						vararg.Set(reflect.Append(vararg, v(f)))
 					}
+				case isFloat(dest[i].Type()) || isComplex(dest[i].Type()):
+					// Always copy: a negative zero is reported as a zero value by reflect,
+					// but it is not the zero value the destination is initialized with.
+					dest[i].Set(v(f))
 				default:
 					val := v(f)
 					if val.IsZero() && dest[i].Kind() != reflect.Interface {
